@@ -2106,3 +2106,36 @@ def r6d(cx):
             cx.violation(fns[0], 'create-with-trailing-slash', 'open(O_CREAT) of a missing pathname that ends with a slash creates a regular '
                          'file of that name: `echo z > newfile/` succeeds and leaves `newfile` behind in the simulator; a real kernel refuses '
                          '(EISDIR) and creates nothing', loc=body.loc(t))
+
+
+# added after a remark of rule helper H7 (fix 021895c: the simulated execve looked `./cmd` up from the root directory)
+@RS.rule('C19.R20', 'K-CALLERS', 'every system call of the simulated kernel resolves a pathname the same way - relative to the working '
+         'directory of the process: the raw lookup FileSystem::get (which reads a relative pathname from the root) is reached only '
+         'through the two resolvers, resolve_existing_file and resolve_file, in which it is fed the result of resolve_relative_path')
+def r20(cx):
+    F = cx.F
+    GETP = re.compile(r'file_system::FileSystem::get$')
+    allowed = {VIRT + '::resolve_existing_file', VIRT + '::resolve_file'}
+    users = [(b, blk, t) for b, blk, t in F.callers_of(lambda names, t: any(GETP.search(n) for n in names))
+             if '::tests' not in b.fn and not b.root.startswith('yash_env::system::r#virtual::file_system::')]
+    cx.floor(len(users), 2, 'callers of FileSystem::get in the simulated kernel')
+    for b, blk, t in users:
+        cx.fn(b.root)
+        ok = b.root in allowed
+        fed = False
+        if ok:
+            du = Q.DefUse(b)
+            src = Q.value_source(b, du, t['a'][1]) if len(t['a']) > 1 else None
+            tainted = Q.forward_taint(b, {c['dest']['l'] for _, c in Q.find_calls(b, [re.compile(r'::resolve_relative_path$')])})
+            fed = Q.operand_local(t['a'][1]) in tainted if len(t['a']) > 1 and Q.operand_local(t['a'][1]) is not None else False
+        cx.site('%s: FileSystem::get at %s: reviewed resolver: %s; pathname made relative to the working directory first: %s' % (last(b.root), b.loc(t), ok, fed))
+        if not ok:
+            cx.violation(b.root, 'raw-lookup-outside-resolvers', 'a system call of the simulated kernel looks its pathname up with the raw '
+                         'FileSystem::get, which reads a relative pathname from the ROOT directory: after `cd /dir`, `./cmd` is found by the '
+                         'command search (fstatat resolves from the working directory) but this call answers ENOENT or finds `/cmd`', loc=b.loc(t))
+        elif not fed:
+            cx.violation(b.root, 'resolver-skips-working-directory', 'the resolver hands FileSystem::get a pathname that did not go through '
+                         'resolve_relative_path', loc=b.loc(t))
+
+
+RS.explanation += ' Every pathname-taking simulated system call goes through the two resolvers (R20); the empty pathname is ENOENT and `name/` is not created (R6d).'
